@@ -783,6 +783,365 @@ static void enumerate_c07(void)
 	vf_count("documents_not_json", c07_nonjson);
 }
 
+/* ================================================================== C08 */
+static const char *KIDS[] = { NULL, "k", "%LONG", "\xd0\xba\xd0\xbb\xd1\x8e\xd1\x87", "" };
+#define NKID 5
+static const char *USES[] = { NULL, "\"sig\"", "\"enc\"", "\"SIG\"", "\"\"", "5" };
+#define NUSE 6
+static const char *OPSV[] = { NULL, "[]", "[\"sign\"]", "[\"verify\"]", "[\"sign\",\"verify\"]", "[\"encrypt\"]", "[\"sign\",\"encrypt\"]", "[\"verify\",\"encrypt\"]",
+			      "[\"sign\",\"verify\",\"encrypt\"]", "[\"wrapKey\"]", "[\"sign\",\"wrapKey\"]", "[\"verify\",\"wrapKey\"]", "[\"sign\",\"verify\",\"wrapKey\"]",
+			      "[\"encrypt\",\"wrapKey\"]", "[\"sign\",\"encrypt\",\"wrapKey\"]", "[\"verify\",\"encrypt\",\"wrapKey\"]", "[\"sign\",\"verify\",\"encrypt\",\"wrapKey\"]",
+			      "[\"sign\",\"bogus\"]", "[\"decrypt\",\"unwrapKey\",\"deriveKey\",\"deriveBits\"]", "\"sign\"", "[1,\"verify\"]", "[\"Sign\"]" };
+#define NOPSV 22
+static const char *FOREIGN[][2] = { { NULL, NULL }, { "k", "\"AAAA\"" }, { "n", "\"AQAB\"" }, { "crv", "\"P-521\"" }, { "x5c", "[\"MIIB\"]" }, { "d", "\"AAAA\"" },
+				    { "zz", "{\"a\":[1,2]}" }, { "p", "\"AQAB\"" }, { "y", "\"AAAA\"" }, { "x", "\"AAAA\"" }, { "e", "\"AQAB\"" }, { "oth", "[]" } };
+#define NFOREIGN 12
+
+static int own_member(const char *kty, const char *m)
+{
+	static const char *rsa[] = { "n", "e", "d", "p", "q", "dp", "dq", "qi", NULL }, *ec[] = { "crv", "x", "y", "d", NULL }, *okp[] = { "crv", "x", "d", NULL }, *oct[] = { "k", NULL };
+	const char **l = !strcmp(kty, "RSA") ? rsa : !strcmp(kty, "EC") ? ec : !strcmp(kty, "OKP") ? okp : oct;
+	for (; *l; l++)
+		if (!strcmp(*l, m))
+			return 1;
+	return 0;
+}
+
+static int alg_choices(const char *kty, int bits, const char **out)
+{
+	int n = 0;
+	out[n++] = NULL;
+	if (!strcmp(kty, "RSA")) {
+		out[n++] = "RS256"; out[n++] = "RS384"; out[n++] = "RS512"; out[n++] = "PS256"; out[n++] = "PS384"; out[n++] = "PS512";
+	} else if (!strcmp(kty, "EC"))
+		out[n++] = bits == 384 ? "ES384" : bits == 521 ? "ES512" : "ES256";
+	else if (!strcmp(kty, "OKP"))
+		out[n++] = "EdDSA";
+	else {
+		out[n++] = "HS256"; out[n++] = "HS384"; out[n++] = "HS512";
+	}
+	return n;
+}
+
+/* re-encode a base64url integer member: enc 0 canonical as given, 1/2 = that many leading zero bytes, 3 = minimal */
+static void reencode_int(json_t *j, const char *name, int enc)
+{
+	json_t *v = json_object_get(j, name);
+	if (!v || !json_is_string(v) || enc == 0)
+		return;
+	const char *s = json_string_value(v);
+	unsigned char buf[1200], out[1200];
+	long n = ref_b64_decode_strict(s, strlen(s), buf);
+	if (n <= 0)
+		return;
+	size_t o = 0;
+	if (enc == 3) {
+		long skip = 0;
+		while (skip < n - 1 && buf[skip] == 0)
+			skip++;
+		memcpy(out, buf + skip, n - skip);
+		o = n - skip;
+	} else {
+		memset(out, 0, enc);
+		memcpy(out + enc, buf, n);
+		o = n + enc;
+	}
+	char txt[1700];
+	ref_b64_encode(out, o, txt);
+	json_object_set_new(j, name, json_string(txt));
+}
+
+static BIGNUM *member_bn(const json_t *j, const char *name)
+{
+	json_t *v = json_object_get(j, name);
+	unsigned char buf[1200];
+	if (!v || !json_is_string(v))
+		return NULL;
+	long n = ref_b64_decode_prefix(json_string_value(v), json_string_length(v), buf);
+	return n > 0 ? BN_bin2bn(buf, (int)n, NULL) : NULL;
+}
+
+static long c08_imports, c08_compared, c08_noncanon_refused;
+
+typedef struct {
+	const vk_t *vk;     /* NULL = oct */
+	int priv;
+	size_t octlen;
+	int alg_i, kid_i, use_i, ops_i, enc_i, for_i;
+} c08cfg_t;
+
+/* compare the imported item with an independent reading of the JWK j */
+static void c08_compare(const c08cfg_t *c, const json_t *j, const jwk_item_t *it, const char *doc, const char **algs)
+{
+	const char *kty = c->vk ? c->vk->kty : "oct";
+#define MISMATCH(key, ...) vf_violation(key, __VA_ARGS__)
+	/* ---- metadata ---- */
+	int want_kty = !strcmp(kty, "RSA") ? JWK_KEY_TYPE_RSA : !strcmp(kty, "EC") ? JWK_KEY_TYPE_EC : !strcmp(kty, "OKP") ? JWK_KEY_TYPE_OKP : JWK_KEY_TYPE_OCT;
+	if ((int)jwks_item_kty(it) != want_kty)
+		MISMATCH("import|kty-differs", "kty %d, JWK says %s: %s", jwks_item_kty(it), kty, doc);
+	int want_priv = c->vk ? c->priv : 1;
+	if (jwks_item_is_private(it) != want_priv)
+		MISMATCH("import|private-flag-differs", "is_private=%d, JWK is %s: %s", jwks_item_is_private(it), want_priv ? "private" : "public", doc);
+	jwt_alg_t want_alg = algs[c->alg_i] ? tok_alg_of(algs[c->alg_i]) : JWT_ALG_NONE;
+	if (jwks_item_alg(it) != want_alg)
+		MISMATCH("import|alg-differs", "alg %d, JWK says %s: %s", jwks_item_alg(it), algs[c->alg_i] ? algs[c->alg_i] : "(none)", doc);
+	json_t *jk = json_object_get(j, "kid");
+	const char *want_kid = jk && json_is_string(jk) && json_string_length(jk) ? json_string_value(jk) : NULL;
+	const char *kid = jwks_item_kid(it);
+	if ((kid == NULL) != (want_kid == NULL) || (kid && strcmp(kid, want_kid)))
+		MISMATCH("import|kid-differs", "kid '%s', JWK says '%s'", kid ? kid : "(null)", want_kid ? want_kid : "(none)");
+	json_t *ju = json_object_get(j, "use");
+	int want_use = ju && json_is_string(ju) ? (!strcmp(json_string_value(ju), "sig") ? JWK_PUB_KEY_USE_SIG : !strcmp(json_string_value(ju), "enc") ? JWK_PUB_KEY_USE_ENC : 0) : 0;
+	if ((int)jwks_item_use(it) != want_use)
+		MISMATCH("import|use-differs", "use %d, JWK says %s: %.200s", jwks_item_use(it), USES[c->use_i] ? USES[c->use_i] : "(none)", doc);
+	int want_ops = 0;
+	json_t *jo = json_object_get(j, "key_ops"), *el;
+	size_t idx;
+	if (jo && json_is_array(jo))
+		json_array_foreach(jo, idx, el) {
+			static const char *names[] = { "sign", "verify", "encrypt", "decrypt", "wrapKey", "unwrapKey", "deriveKey", "deriveBits" };
+			if (json_is_string(el))
+				for (int b = 0; b < 8; b++)
+					if (!strcmp(json_string_value(el), names[b]))
+						want_ops |= 1 << b;
+		}
+	if ((int)jwks_item_key_ops(it) != want_ops)
+		MISMATCH("import|key_ops-differs", "key_ops %#x, JWK says %s (%#x)", jwks_item_key_ops(it), OPSV[c->ops_i] ? OPSV[c->ops_i] : "(none)", want_ops);
+	/* ---- key material ---- */
+	if (!c->vk) {
+		const unsigned char *ob = NULL;
+		size_t ol = 0;
+		unsigned char want[600];
+		vk_oct_bytes((int)c->octlen, want, c->octlen);
+		if (jwks_item_key_oct(it, &ob, &ol) || ol != c->octlen || memcmp(ob, want, ol))
+			MISMATCH("import|oct-bytes-differ", "oct key of %zu bytes imported as %zu bytes", c->octlen, ol);
+		if (jwks_item_key_bits(it) != (int)(8 * c->octlen))
+			MISMATCH("import|bits-differ", "oct key of %zu bytes reports %d bits", c->octlen, jwks_item_key_bits(it));
+		c08_compared++;
+		return;
+	}
+	if (jwks_item_key_bits(it) != c->vk->bits)
+		MISMATCH("import|bits-differ", "%s reports %d bits, key has %d (enc variant %d)", c->vk->name, jwks_item_key_bits(it), c->vk->bits, c->enc_i);
+	if (!strcmp(kty, "RSA")) {
+		if (jwks_item_curve(it))
+			MISMATCH("import|curve-differs", "RSA key reports curve %s", jwks_item_curve(it));
+	} else if (!jwks_item_curve(it) || strcmp(jwks_item_curve(it), c->vk->crv))
+		MISMATCH("import|curve-differs", "curve %s, JWK says %s", jwks_item_curve(it) ? jwks_item_curve(it) : "(null)", c->vk->crv);
+	const char *pem = jwks_item_pem(it);
+	if (!pem) {
+		MISMATCH("import|no-pem", "no PEM for %s", c->vk->name);
+		return;
+	}
+	BIO *bio = BIO_new_mem_buf(pem, -1);
+	EVP_PKEY *pk = c->priv ? PEM_read_bio_PrivateKey(bio, NULL, NULL, NULL) : PEM_read_bio_PUBKEY(bio, NULL, NULL, NULL);
+	BIO_free(bio);
+	if (!pk) {
+		MISMATCH("import|pem-unparsable", "libcrypto cannot parse the %s PEM of %s", c->priv ? "private" : "public", c->vk->name);
+		return;
+	}
+	c08_compared++;
+	if (!strcmp(kty, "RSA")) {
+		static const char *jn[] = { "n", "e", "d", "p", "q", "dp", "dq", "qi" };
+		static const char *on[] = { OSSL_PKEY_PARAM_RSA_N, OSSL_PKEY_PARAM_RSA_E, OSSL_PKEY_PARAM_RSA_D, OSSL_PKEY_PARAM_RSA_FACTOR1, OSSL_PKEY_PARAM_RSA_FACTOR2,
+					    OSSL_PKEY_PARAM_RSA_EXPONENT1, OSSL_PKEY_PARAM_RSA_EXPONENT2, OSSL_PKEY_PARAM_RSA_COEFFICIENT1 };
+		for (int m = 0; m < (c->priv ? 8 : 2); m++) {
+			BIGNUM *want = member_bn(j, jn[m]), *got = NULL;
+			EVP_PKEY_get_bn_param(pk, on[m], &got);
+			if (!want || !got || BN_cmp(want, got)) {
+				char key[64];
+				snprintf(key, sizeof key, "import|rsa-%s-differs", jn[m]);
+				MISMATCH(key, "%s: RSA member %s of the imported key differs from the JWK", c->vk->name, jn[m]);
+			}
+			BN_free(want);
+			BN_free(got);
+		}
+		int is_pss = EVP_PKEY_is_a(pk, "RSA-PSS");
+		int want_pss = algs[c->alg_i] && algs[c->alg_i][0] == 'P';
+		vf_obs(is_pss * 2 + want_pss);
+	} else if (!strcmp(kty, "EC")) {
+		char grp[64] = "";
+		EVP_PKEY_get_group_name(pk, grp, sizeof grp, NULL);
+		const char *wantgrp = !strcmp(c->vk->crv, "P-256") ? "prime256v1" : !strcmp(c->vk->crv, "P-384") ? "secp384r1" : !strcmp(c->vk->crv, "P-521") ? "secp521r1" : "secp256k1";
+		if (strcmp(grp, wantgrp))
+			MISMATCH("import|ec-group-differs", "%s: group %s, JWK says %s", c->vk->name, grp, c->vk->crv);
+		static const char *jn[] = { "x", "y", "d" };
+		static const char *on[] = { OSSL_PKEY_PARAM_EC_PUB_X, OSSL_PKEY_PARAM_EC_PUB_Y, OSSL_PKEY_PARAM_PRIV_KEY };
+		for (int m = 0; m < (c->priv ? 3 : 2); m++) {
+			BIGNUM *want = member_bn(j, jn[m]), *got = NULL;
+			EVP_PKEY_get_bn_param(pk, on[m], &got);
+			if (!want || !got || BN_cmp(want, got)) {
+				char key[64];
+				snprintf(key, sizeof key, "import|ec-%s-differs", jn[m]);
+				MISMATCH(key, "%s: EC member %s of the imported key differs from the JWK (enc variant %d)", c->vk->name, jn[m], c->enc_i);
+			}
+			BN_free(want);
+			BN_free(got);
+		}
+	} else {
+		unsigned char raw[64], want[64];
+		size_t rl = sizeof raw;
+		json_t *jx = json_object_get(j, "x");
+		long wl = ref_b64_decode_strict(json_string_value(jx), json_string_length(jx), want);
+		if (EVP_PKEY_get_raw_public_key(pk, raw, &rl) != 1 || (long)rl != wl || memcmp(raw, want, rl))
+			MISMATCH("import|okp-x-differs", "%s: OKP public key differs from x", c->vk->name);
+		if (c->priv) {
+			json_t *jd = json_object_get(j, "d");
+			wl = ref_b64_decode_strict(json_string_value(jd), json_string_length(jd), want);
+			rl = sizeof raw;
+			if (EVP_PKEY_get_raw_private_key(pk, raw, &rl) != 1 || (long)rl != wl || memcmp(raw, want, rl))
+				MISMATCH("import|okp-d-differs", "%s: OKP private key differs from d", c->vk->name);
+		}
+	}
+	EVP_PKEY_free(pk);
+}
+
+static char *c08_build(const c08cfg_t *c, const char **algs, json_t **jout)
+{
+	json_t *j;
+	const char *kty = c->vk ? c->vk->kty : "oct";
+	if (c->vk)
+		j = json_deep_copy(c->priv ? c->vk->priv_jwk : c->vk->pub_jwk);
+	else {
+		unsigned char k[600];
+		char txt[900];
+		vk_oct_bytes((int)c->octlen, k, c->octlen);
+		ref_b64_encode(k, c->octlen, txt);
+		j = json_pack("{ssss}", "kty", "oct", "k", txt);
+	}
+	if (algs[c->alg_i])
+		json_object_set_new(j, "alg", json_string(algs[c->alg_i]));
+	if (KIDS[c->kid_i]) {
+		if (!strcmp(KIDS[c->kid_i], "%LONG")) {
+			char l[201];
+			memset(l, 'k', 200);
+			l[200] = 0;
+			json_object_set_new(j, "kid", json_string(l));
+		} else
+			json_object_set_new(j, "kid", json_string(KIDS[c->kid_i]));
+	}
+	if (USES[c->use_i])
+		json_object_set_new(j, "use", json_loads(USES[c->use_i], JSON_DECODE_ANY, NULL));
+	if (OPSV[c->ops_i])
+		json_object_set_new(j, "key_ops", json_loads(OPSV[c->ops_i], JSON_DECODE_ANY, NULL));
+	if (c->enc_i && c->vk && strcmp(kty, "OKP")) {
+		static const char *ints[] = { "n", "e", "d", "p", "q", "dp", "dq", "qi", "x", "y" };
+		for (unsigned i = 0; i < sizeof ints / sizeof *ints; i++)
+			reencode_int(j, ints[i], c->enc_i);
+	}
+	if (FOREIGN[c->for_i][0] && !own_member(kty, FOREIGN[c->for_i][0]))
+		json_object_set_new(j, FOREIGN[c->for_i][0], json_loads(FOREIGN[c->for_i][1], JSON_DECODE_ANY, NULL));
+	*jout = j;
+	return tok_jdump(j, JSON_COMPACT);
+}
+
+static void c08_one(const c08cfg_t *c, const char **algs)
+{
+	json_t *j;
+	char *doc = c08_build(c, algs, &j);
+	jwk_set_t *set = jwks_create(doc);
+	const jwk_item_t *it = set ? jwks_item_get(set, 0) : NULL;
+	c08_imports++;
+	if (!it || jwks_item_count(set) != 1)
+		vf_violation("import|no-item", "no single item for %.300s", doc);
+	else if (jwks_item_error(it)) {
+		vf_obs(3);
+		if (c->enc_i == 0)
+			vf_violation("import|well-formed-jwk-refused", "%s %s refused: %s: %.300s", c->vk ? c->vk->name : "oct", c->priv ? "private" : "public", jwks_item_error_msg(it), doc);
+		else
+			c08_noncanon_refused++;
+	} else {
+		vf_obs(1);
+		c08_compare(c, j, it, doc, algs);
+		/* a foreign member must not change anything: compare with the import of the same JWK without it */
+		if (FOREIGN[c->for_i][0] && !own_member(c->vk ? c->vk->kty : "oct", FOREIGN[c->for_i][0])) {
+			c08cfg_t c2 = *c;
+			json_t *j2;
+			c2.for_i = 0;
+			char *doc2 = c08_build(&c2, algs, &j2);
+			jwk_set_t *set2 = jwks_create(doc2);
+			const jwk_item_t *i2 = jwks_item_get(set2, 0);
+			const char *p1 = jwks_item_pem(it), *p2 = i2 ? jwks_item_pem(i2) : NULL;
+			if (!i2 || jwks_item_error(i2) || (p1 == NULL) != (p2 == NULL) || (p1 && strcmp(p1, p2)) || jwks_item_key_bits(it) != jwks_item_key_bits(i2) ||
+			    jwks_item_alg(it) != jwks_item_alg(i2) || jwks_item_is_private(it) != jwks_item_is_private(i2))
+				vf_violation("import|foreign-member-changes-key", "member %s changed the imported %s key", FOREIGN[c->for_i][0], c->vk ? c->vk->name : "oct");
+			jwks_free(set2);
+			json_decref(j2);
+			free(doc2);
+		}
+		vf_nontrivial(vf_hash_str(doc));
+	}
+	jwks_free(set);
+	json_decref(j);
+	free(doc);
+}
+
+static void enumerate_c08(void)
+{
+	static const char *product_keys[] = { "rsa2048a", "p256_x0", "p521_y0", "ed25519a", "k256_d0", "rsapss2048" };
+	for (int k = -1; k < vk_n; k++) {
+		const vk_t *vk = k < 0 ? NULL : &vk_pool[k];
+		if (vk && !strcmp(vk->crv, "X25519"))
+			continue;   /* not a signature key: C09 covers the refusal */
+		const char *algs[8];
+		int nalg = alg_choices(vk ? vk->kty : "oct", vk ? vk->bits : 0, algs);
+		int nenc = !vk || !strcmp(vk->kty, "OKP") ? 1 : !strcmp(vk->kty, "EC") ? 4 : 3;
+		for (int priv = 1; priv >= (vk ? 0 : 1); priv--) {
+			int dims[6] = { nalg, NKID, NUSE, NOPSV, nenc, NFOREIGN };
+			int product = 0;
+			for (unsigned i = 0; vk && i < sizeof product_keys / sizeof *product_keys; i++)
+				if (!strcmp(vk->name, product_keys[i]))
+					product = 1;
+			/* sweeps: every dimension alone, then every pair of dimensions, others at default */
+			for (int d1 = 0; d1 < 6; d1++)
+				for (int d2 = d1; d2 < 6; d2++) {
+					if (!vf_case("%s %s: dimensions %d x %d swept (alg,kid,use,key_ops,encoding,foreign)", vk ? vk->name : "oct-64", priv ? "private" : "public", d1, d2))
+						continue;
+					for (int a = 0; a < dims[d1]; a++)
+						for (int b = 0; b < (d1 == d2 ? 1 : dims[d2]); b++) {
+							int v[6] = { 0, 0, 0, 0, 0, 0 };
+							v[d1] = a;
+							if (d1 != d2)
+								v[d2] = b;
+							c08cfg_t c = { vk, priv, 64, v[0], v[1], v[2], v[3], v[4], v[5] };
+							c08_one(&c, algs);
+						}
+				}
+			/* thorough: the full product for the representative keys */
+			if (vf_thorough && product)
+				for (int a = 0; a < nalg; a++)
+					for (int e = 0; e < nenc; e++)
+						for (int f = 0; f < NFOREIGN; f++) {
+							if (!vf_case("%s %s: full product kid x use x key_ops with alg %s, encoding %d, foreign %s", vk->name, priv ? "private" : "public",
+								     algs[a] ? algs[a] : "-", e, FOREIGN[f][0] ? FOREIGN[f][0] : "-"))
+								continue;
+							for (int kd = 0; kd < NKID; kd++)
+								for (int u = 0; u < NUSE; u++)
+									for (int o = 0; o < NOPSV; o++) {
+										c08cfg_t c = { vk, priv, 64, a, kd, u, o, e, f };
+										c08_one(&c, algs);
+									}
+						}
+		}
+	}
+	/* oct keys of every length 1..512 */
+	{
+		const char *algs[8];
+		alg_choices("oct", 0, algs);
+		for (int len = 1; len <= 512; len++) {
+			if (!vf_case("oct key of %d bytes, with and without alg/kid/foreign members", len))
+				continue;
+			for (int a = 0; a < 2; a++)
+				for (int f = 0; f < 4; f++) {
+					c08cfg_t c = { NULL, 1, (size_t)len, a, f % 2, 0, 0, 0, f == 0 ? 0 : f == 1 ? 2 : f == 2 ? 5 : 6 };
+					c08_one(&c, algs);
+				}
+		}
+	}
+	vf_count("evaluations", c08_imports);
+	vf_count("keys_compared_member_by_member", c08_compared);
+	vf_count("noncanonical_encodings_refused", c08_noncanon_refused);
+}
+
 static void enumerate(void)
 {
 	vf_alloc_install();
@@ -792,6 +1151,8 @@ static void enumerate(void)
 		enumerate_c16();
 	else if (!strcmp(vf_prop, "C07"))
 		enumerate_c07();
+	else if (!strcmp(vf_prop, "C08"))
+		enumerate_c08();
 	else {
 		fprintf(stderr, "jwk: unknown --prop %s\n", vf_prop);
 		exit(2);
